@@ -51,10 +51,10 @@ type Op struct {
 
 // Case is one generated history for 1..n channels.
 type Case struct {
-	ID    int64     `json:"id"`
-	Npre  int       `json:"npre"`
-	Nsamp int       `json:"nsamp"`
-	Rate  int64     `json:"rate"` // samples per second; 1e9 must be a multiple (sample period = a whole number of ns)
+	ID    int64 `json:"id"`
+	Npre  int   `json:"npre"`
+	Nsamp int   `json:"nsamp"`
+	Rate  int64 `json:"rate"` // samples per second; 1e9 must be a multiple (sample period = a whole number of ns)
 	// FRate, when > 0, replaces Rate: any sample rate; the blocks then carry the period a real source uses,
 	// time.Duration(roundint(1e9/rate)) whole nanoseconds, which is NOT 1/rate
 	FRate float64   `json:"frate,omitempty"`
